@@ -130,6 +130,9 @@ func c19Profiles(tier string) []Profile {
 			if _, ok := w.Colls["x"]; !ok {
 				return nil
 			}
+			if curLen > 8192 && len(w.Hist) >= 2 {
+				return nil // (values of 64 KiB and more: histories of length 1)
+			}
 			n := curLen
 			var ls []Letter
 			for _, k := range [][]byte{kA, kB} {
@@ -151,7 +154,7 @@ func c19Profiles(tier string) []Profile {
 	ph := *p
 	ph.Name, ph.Depth, ph.CBMask = "lazy-with-hooks", d-1, harness.CBBeforeWrite|harness.CBAfterRead|harness.CBValLength
 	return []Profile{conc.Profile(2),
-		sizes.Profile(fmt.Sprintf("3 keys with values of %v bytes, flushed x {evicted, re-opened, re-opened + key-only lookup} x every history of length <= %d over Set of an existing key with the same bytes / other bytes of the same length / one byte more, Delete, key-only lookup and visit, Flush, Evict: overwriting or deleting an item whose value is not cached must not fetch that value, whatever its size", ladder, sd)),
+		sizes.Profile(fmt.Sprintf("3 keys with values of %v bytes, flushed x {evicted, re-opened, re-opened + key-only lookup} x every history of length <= %d over Set of an existing key with the same bytes / other bytes of the same length / one byte more, Delete, key-only lookup and visit, Flush, Evict: overwriting or deleting an item whose value is not cached must not fetch that value, whatever its size (sizes above 8192: histories of length 1)", ladder, sd)),
 		ph.Profile(fmt.Sprintf("the same alphabet and oracle with pass-through BeforeItemWrite / AfterItemRead hooks and an ItemValLength callback installed, histories of length <= %d: installing a hook must not make key-only operations read values", d-1)),
 		p.Profile(fmt.Sprintf("every history of length <= %d over Set/Delete on 3 keys, key-only lookups (GetItem, Min, Max, Exist), key-only visits through 3 APIs, Len, one value-loading lookup and visit (to vary what is cached), Flush, Evict, Reopen; at the end of every history the file is re-opened and all key-only operations run again on the never-loaded store. Every ReadAt issued during a key-only call is checked against the value byte ranges of all item records (independent decoder over all roots); every open of a file ending in a root record may only Stat and read inside that record and must leave no node cached", d))}
 }
